@@ -919,6 +919,27 @@ func csgStage(r *ev.Run, full bool) {
 		checkMC(r, c, j.s.s, j.delta, j.iters, j.iters == 2, true, 1e-6*j.delta)
 	})
 	r.Set("csg_runs", len(jobs))
+	// boxes whose faces coincide (up to rounding) with lattice planes of a spacing that is not exactly
+	// representable, long enough for the accumulated lattice coordinates to drift from origin + k*delta: the
+	// transition of every sign-changing edge then sits at, or one ulp beside, one of its ends
+	var aligned []job
+	for _, d := range []float64{0.1, 0.3, 0.7, 1.0 / 3} {
+		for _, k := range [][3]int{{15, 4, 3}, {3, 11, 2}, {2, 3, 13}, {7, 7, 7}} {
+			for _, org := range []c3{{}, model3d.XYZ(0.1, -0.3, 0.7)} {
+				mn := org
+				mx := org.Add(model3d.XYZ(float64(k[0])*d, float64(k[1])*d, float64(k[2])*d))
+				for _, it := range []int{1, 4} {
+					aligned = append(aligned, job{namedSolid{fmt.Sprintf("Rect(%v,%v)", mn, mx), model3d.NewRect(mn, mx)}, d, it})
+				}
+			}
+		}
+	}
+	ev.Parallel(len(aligned), 0, func(i int) {
+		j := aligned[i]
+		c := gcase{Algo: "MarchingCubesAligned", Solid: j.s.name, Delta: j.delta, Iters: j.iters, Opts: fmt.Sprintf("delta=%g iters=%d", j.delta, j.iters)}
+		checkMC(r, c, j.s.s, j.delta, j.iters, j.iters == 4, false, 0)
+	})
+	r.Set("lattice_aligned_box_runs", len(aligned))
 }
 
 func dcStage(r *ev.Run, full bool) {
